@@ -762,7 +762,20 @@ def do_directions(part, start, end, counter):
         )
         result.append((tempo.start.t, None, e3))
 
-    for direction in directions:
+    # pedal signs that started in an earlier segment and end in this one
+    ending_pedals = [
+        direction
+        for direction in part.iter_all(
+            score.PedalDirection,
+            start.next,
+            end.next,
+            include_subclasses=True,
+            mode="ending",
+        )
+        if direction.start.t < start.t
+    ]
+
+    for direction in ending_pedals + list(directions):
         text = direction.raw_text or direction.text
 
         if text in PEDAL_DIRECTIONS:
@@ -803,7 +816,7 @@ def do_directions(part, start, end, counter):
                     # For Flake8 (ignore unused variable), since
                     # etree.SubElement adds e2e to e1e
                     e2e = etree.SubElement(  # noqa: F841
-                        e1e, "pedal", type="end", **pedal_kwargs
+                        e1e, "pedal", type="stop", **pedal_kwargs
                     )
                 if direction.staff is not None and direction.staff != 1:
                     e3e = etree.SubElement(e0e, "staff")
